@@ -148,6 +148,21 @@ def run(ck, only_case=None):
         if n_diff > 20:
             break
 
+    # extraction is itself checked: a sample of the cases is re-evaluated by vm_compute inside Coq
+    if not quick:
+        qids = [q for q, (tree, kind, payload) in queries.items() if kind == 'Q' and q.startswith('t') and len(tree) <= 16]
+        sample = ck.rng.sample(qids, min(40, len(qids)))
+        cases = [(queries[q][0], queries[q][2][0], queries[q][2][1]) for q in sample]
+        got = fs.coq_eval_listings(cases, d)
+        for q, g in zip(sample, got):
+            ck.tally('vm_compute_crosscheck')
+            if g is None or g != fs.parse_set(model.get(q)):
+                ck.violation({'kind': 'extraction-crosscheck', 'case': q, 'vm_compute': None if g is None else sorted(map(repr, g)),
+                              'extracted_runner': model.get(q),
+                              'what': 'the extracted OCaml model and vm_compute inside Coq disagree on FsTree.listing_set'},
+                             found_input=False)
+        ck.extra['extraction_crosscheck'] = '%d listing cases re-evaluated with vm_compute inside Coq, compared with the extracted runner' % len(sample)
+
     # "watching applies the same rule to the path of each event"
     if watch_lines:
         wf = os.path.join(d, 'watch_cases.txt')
